@@ -2,6 +2,7 @@ package props
 
 import (
 	"go/token"
+	"go/types"
 	"strings"
 
 	"golang.org/x/tools/go/ssa"
@@ -242,7 +243,12 @@ func conflatedContext(c *Ctx) {
 		wq.add("PATH", "the result is cancelled once every input is cancelled", okw, "wg.Wait() then cancel()", ws...)
 	}
 	// all dead => cancel via the deferred closure (success stays false)
-	succ := an.CellByName(fn, "success")
+	var succ *ssa.Alloc
+	for _, in := range an.AllInstrs(fn, func(in ssa.Instruction) bool { _, ok := in.(*ssa.Alloc); return ok }) {
+		if al := in.(*ssa.Alloc); P.Captured(al) && isBoolPtr(al) {
+			succ = al
+		}
+	}
 	if succ != nil {
 		var trues []ssa.Instruction
 		for _, st := range P.CellStores(succ) {
@@ -346,4 +352,8 @@ func init() {
 			floorKey("ChainAfterFunc", 3, "/ChainAfterFunc"),
 		},
 	})
+}
+
+func isBoolPtr(al *ssa.Alloc) bool {
+	return al.Type().Underlying().(*types.Pointer).Elem().String() == "bool"
 }
